@@ -92,6 +92,9 @@ func (g *G) storeKeyPool() []string {
 
 func (g *G) storeValue(max int) string {
 	n := g.pickI(0, 1, 2, 17, 100, max/2, max)
+	if max >= 65536 && g.chance(0.004) {
+		n = 1 << 20 // rarely a value of 1 MiB (thorough tier)
+	}
 	v := make([]byte, n)
 	for i := range v {
 		v[i] = byte(g.intn(256))
